@@ -838,6 +838,40 @@ def c11_pull(ctx):
                          sample={'task': key_of(b), 'pull': method(t), 'guard': 'chunk_size == 1' if one else None})
                 if not one:
                     out.fail(key, '%s pulls element-wise (%s) on a path where chunk_size may differ from 1' % (key_of(b), method(t)), b.where(c['line']))
+    # pulls outside the worker tasks: nothing else may take elements from the shared source in a parallel run - such a pull is not
+    # sized by the resolved chunk size, and it shifts every later pull off the aligned block boundaries
+    inside = set()
+    for tn in S.tasks:
+        inside.add(tn)
+        for cb in F.closures_in(F.bodies[tn], recursive=True):
+            inside.add(cb.name)
+
+    def only_from_tasks(name, seen):
+        if name in inside:
+            return True
+        if name in seen:
+            return True
+        seen.add(name)
+        bd = F.bodies[name]
+        if bd.is_closure():
+            return only_from_tasks(bd.parent, seen) if bd.parent in F.bodies else False
+        cl = ctx.cg.callers(name, kinds=('direct', 'cha'))
+        return bool(cl) and all(only_from_tasks(cn, seen) for (cn, k, cbb) in cl)
+
+    n_out = 0
+    for b in F.bodies.values():
+        if b.name in inside:
+            continue
+        for bb, t in b.calls():
+            if not (is_coniter_call(t, PULL_SIZED) or is_coniter_call(t, PULL_ELEMENT) or (is_pull_call(t) and not is_buffered_next(t))):
+                continue
+            if only_from_tasks(b.name, set()):
+                n_out += 1
+                continue
+            key = 'C11-PULL/outside-task/%s/%s' % (key_of(b), method(t))
+            out.inst(key, False, 'pull outside a worker task')
+            out.fail(key, '%s takes elements from the shared source with `%s` outside the worker tasks: that pull is not sized by the chunk size, and every later pull starts off the aligned block boundary' % (key_of(b), method(t)), b.where(t.get('line')))
+    out.count('helper_pulls_reached_only_from_tasks', n_out)
     out.floor('pull_sites', n, 10 if not ctx.fixture else 0)
     return out
 
